@@ -1237,7 +1237,12 @@ class SSHClientProcess(SSHProcess[AnyStr], SSHClientStreamSession[AnyStr]):
             self._recv_buf[datatype] = []
 
         buf = cast(AnyStr, '' if self._encoding else b'')
-        return buf.join(cast(Iterable[AnyStr], recv_buf))
+        data = buf.join(cast(Iterable[AnyStr], recv_buf))
+
+        self._recv_buf_len -= len(data)
+        self._maybe_resume_reading()
+
+        return data
 
     def session_started(self) -> None:
         """Start a process for this newly opened client channel"""
